@@ -92,7 +92,7 @@ func (c *Ctx) issue(is Issue) {
 	}
 	// keep one issue per (kind, site, class, what)
 	for _, x := range *list {
-		if x.Site == is.Site && x.Class == is.Class && x.What == is.What {
+		if x.Site == is.Site && x.Class == is.Class {
 			return
 		}
 	}
